@@ -599,6 +599,25 @@ def assemble(unit, ex, extra_spec=""):
             parts.append(f"//@@ file {os.path.relpath(p, VERIF)}\n" + open(p).read().rstrip("\n") + "\n//@@ end\n")
     if extra_spec:
         parts.append(extra_spec)
+    if unit.get("decimal_literal_axioms"):
+        # stated transformation: a string literal made of decimal digits denotes the integer written with the same digits.
+        # One axiom per such literal of the extracted source (regenerated from /repo's text on every run).
+        lits = sorted({m for it in ex["items"] for m in re.findall(r'"(\d+)"', it["text"])})
+        def _biglit(n):
+            # rustc parses integer literals as u128: larger values are written in base 2^64
+            n = int(n)
+            if n < 2 ** 100:
+                return f"{n}int"
+            ls = []
+            while n:
+                ls.append(n % 2 ** 64)
+                n //= 2 ** 64
+            e = f"{ls[-1]}int"
+            for l in reversed(ls[:-1]):
+                e = f"({e} * 18446744073709551616int + {l}int)"
+            return e
+        cl = ",\n        ".join(f'dec_ok("{x}") && dec_value("{x}") == {_biglit(x)}' for x in lits) or "true"
+        parts.append("//@@ " + unit["name"] + "|<decimal literals>|axiom|0\n#[verifier::external_body]\npub proof fn lemma_dec_literals()\n    ensures\n        " + cl + ",\n{}\n//@@ end\n")
     # several prelude/spec files may import the same names: expand `use a::{x, y};` and keep the first of each
     seen_use = set()
     for k in range(len(parts)):
